@@ -5732,7 +5732,7 @@ util::Result<CBlockIndex*> ChainstateManager::ActivateSnapshot(
     // Do a final check to ensure that the snapshot chainstate is actually a more
     // work chain than the active chainstate; a user could have loaded a snapshot
     // very late in the IBD process, and we wouldn't want to load a useless chainstate.
-    if (!CBlockIndexWorkComparator()(ActiveTip(), snapshot_chainstate->m_chain.Tip())) {
+    if (ActiveTip()->nChainWork >= snapshot_chainstate->m_chain.Tip()->nChainWork) {
         return cleanup_bad_snapshot(Untranslated("work does not exceed active chainstate"));
     }
     // If not in-memory, persist the base blockhash for use during subsequent
@@ -5813,7 +5813,7 @@ util::Result<void> ChainstateManager::PopulateAndValidateSnapshot(
     // This work comparison is a duplicate check with the one performed later in
     // ActivateSnapshot(), but is done so that we avoid doing the long work of staging
     // a snapshot that isn't actually usable.
-    if (WITH_LOCK(::cs_main, return !CBlockIndexWorkComparator()(ActiveTip(), snapshot_start_block))) {
+    if (WITH_LOCK(::cs_main, return ActiveTip()->nChainWork >= snapshot_start_block->nChainWork)) {
         return util::Error{Untranslated("Work does not exceed active chainstate")};
     }
 
